@@ -2,17 +2,20 @@
 (* all histories up to MaxLen over the call alphabet: repetitions, interleavings *)
 (* with another map, two gradual handles over the same map and settings.         *)
 EXTENDS Session, Json
-CONSTANT MaxLen, Wide
+CONSTANT MaxLen, Wide, Lockstep     \* Lockstep: only the two taiko calculators with different settings, long histories
 VARIABLES hist, pos
 vars == <<hist, pos>>
 C(op, m, cfg, h) == [op |-> op, m |-> m, cfg |-> cfg, h |-> h]
 Alphabet ==
+  IF Lockstep THEN {C("gnext", "m2", "C", "h3"), C("gnext", "m2", "D", "h4")} ELSE
   {C("decode", "m1", "-", "-"), C("bpm", "m1", "-", "-"), C("convert", "m1", "taiko", "-"),
    C("calc", "m1", "A", "-"), C("calc", "m2", "A", "-"), C("perf", "m1", "A", "-"),
-   C("gnext", "m1", "A", "h1"), C("gnext", "m1", "A", "h2")}
+   C("gnext", "m1", "A", "h1"), C("gnext", "m1", "A", "h2"),
+   \* two calculators over the taiko map under DIFFERENT settings, stepped in any interleaving on one thread
+   C("gnext", "m2", "C", "h3"), C("gnext", "m2", "D", "h4")}
   \cup (IF Wide THEN {C("strains", "m1", "B", "-"), C("convert", "m1", "mania", "-"), C("calc", "m1", "B", "-"),
-                      C("attrs", "m2", "B", "-"), C("bpm", "m2", "-", "-"), C("gnext", "m2", "B", "h3")} ELSE {})
-Handles == {"h1", "h2", "h3"}
+                      C("attrs", "m2", "B", "-"), C("bpm", "m2", "-", "-"), C("gnext", "m3", "B", "h5"), C("gnext", "m4", "A", "h6")} ELSE {})
+Handles == {"h1", "h2", "h3", "h4", "h5", "h6"}
 Init == hist = <<>> /\ pos = [h \in Handles |-> 0]
 Next == /\ Len(hist) < MaxLen
         /\ \E c \in Alphabet : hist' = Append(hist, [c |-> c, key |-> KeyOf(c, pos)]) /\ pos' = StepPos(c, pos)
